@@ -143,6 +143,16 @@ CHECKS = {
              "is in turn made dominant, so a missing, duplicated or misplaced entry is seen even when it is not the bottleneck.",
         design="4/C14",
         note="Trusted base: vf/archread.py, the per-class count rules in vf/checks/c14.py (taken from the property statement), the stand-ins of vf/standins.py, Hypothesis."),
+    "C15": dict(
+        technique="stateful property-based testing (Hypothesis RuleBasedStateMachine): histories of parse / compile-from-existing-objects / compile-fresh operations over a drawn pool of specifications; invariants after every step: deep snapshot equality of the parsed objects, text equality with the first compilation and with a first compilation in a fresh interpreter (fork server)",
+        text="Model-based stateful search: Hypothesis' rule-based state machine drives parse(i), compile(i), compile_next, recompile and "
+             "compile_fresh(i) over a pool of 3-5 generated and shipped specifications (plain, partitioned, flattened over a shared rank "
+             "alphabet, metrics with eager buffets); after every step the five parsed objects must equal their snapshots, every "
+             "compilation must succeed and reproduce both the first text from the same objects and the text a pristine interpreter "
+             "emits (a process that imported the compiler but never compiled forks a child per reference). Found and fixed the "
+             "mutation of the caller's Bindings (dc7ba0c).",
+        design="4/C15",
+        note="Trusted base: deep equality of vars(obj) as 'observably equal'; vf/freshserver.py for the pristine-interpreter reference; Hypothesis stateful engine."),
 }
 
 NOT_APPLICABLE = {}
